@@ -214,6 +214,16 @@ Definition uri_xsd : str :=
 
 Definition is_xsi (a : iattr) : bool := uri_is (fst (fst a)) uri_xsi.
 
+(* attributes that are not data of the element: those of the XMLSchema-instance
+   namespace, of the SOAP 1.1 / 1.2 envelope namespaces (env:encodingStyle may
+   appear on any element of a message) and of the xml namespace (xml:lang) *)
+Definition meta_uris : list str := [uri_xsi; uri_env11; uri_env12; uri_xml].
+Definition is_meta (a : iattr) : bool :=
+  match fst (fst a) with
+  | Some u => existsb (str_eqb u) meta_uris
+  | None => false
+  end.
+
 (* the xsi:<local> attribute of an element (at most one in a well-formed document) *)
 Fixpoint ifind_xsi (local : str) (ats : list iattr) : option ival :=
   match ats with
@@ -293,7 +303,7 @@ Fixpoint spec_attrs (ct : ctype) (ats : list iattr) (acc : list (str * pyval)) :
   match ats with
   | [] => Some acc
   | a :: r =>
-      if is_xsi a then spec_attrs ct r acc
+      if is_meta a then spec_attrs ct r acc
       else match fst (fst a), snd a with
            | None, IText v =>
                match get_attribute (nid names (snd (fst a))) (flat_attrs S ct) with
@@ -313,7 +323,7 @@ Fixpoint ref_node (dt : rtype) (nillable : bool) (x : inode) {struct x} : option
       if spec_nil ats then
         (* xsi:nil as None *)
         if nillable && match kids with [] => true | _ => false end && match text with [] => true | _ => false end
-           && forallb is_xsi ats
+           && forallb is_meta ats
         then match actual_type dt ats with Some _ => Some PNone | None => None end
         else None
       else
@@ -322,7 +332,7 @@ Fixpoint ref_node (dt : rtype) (nillable : bool) (x : inode) {struct x} : option
         | Some (RB k) =>
             (* a leaf, typed per its XSD type *)
             match kids with
-            | [] => if forallb is_xsi ats then Some (PLeaf (spec_tag k) text) else None
+            | [] => if forallb is_meta ats then Some (PLeaf (spec_tag k) text) else None
             | _ => None
             end
         | Some (RC ct) =>
@@ -476,8 +486,10 @@ Definition ref_reply (wq : qn) (st : style) (x : inode) : option pyval :=
 (* 1 = a nil occurrence comes first in a repeating member of an object
    2 = whitespace-only character data in a childless element of complex type
    5 = an entirely empty element of complex type        [C02:empty-complex-element-as-empty-string]
-   6 = an empty element of a built-in type without xsi:nil [C02:empty-nillable-leaf-as-none] *)
-Definition no_real_attrs (ats : list iattr) : bool := forallb is_xsi ats.
+   6 = an empty element of a built-in type without xsi:nil [C02:empty-nillable-leaf-as-none]
+   9 = an element whose type has simple content extending a built-in that is not
+       decoded as str                                     [C02:simple-content-value-untyped] *)
+Definition no_real_attrs (ats : list iattr) : bool := forallb is_meta ats.
 
 Fixpoint seen_key (key : str) (l : list inode) : bool :=
   match l with [] => false | k :: r => str_eqb (i_nm k) key || seen_key key r end.
@@ -492,7 +504,7 @@ Fixpoint flags_node (dt : rtype) (nillable : bool) (x : inode) {struct x} : list
           match text with [] => [6%N] | _ => [] end
       | Some (RC ct) =>
           match simple_kind ct with
-          | Some _ => match text with [] => [6%N] | _ => [] end
+          | Some k => (if N.eqb (spec_tag k) tag_str then [] else [9%N]) ++ match text with [] => [6%N] | _ => [] end
           | None =>
           match kids with
           | [] => match text with
